@@ -85,6 +85,10 @@ def make_route(entry, log, trail=False, **kw):
     methods = entry.get('msv')
     if methods is not None:
         methods = [m for m in methods if m != 'HEAD'] or None
+    if methods:
+        # method names are case-insensitive in a route declaration too: spell them differently per route
+        spell = {0: str.upper, 1: str.lower, 2: str.title}[int(entry['id']) % 3]
+        methods = [spell(m) for m in methods]
     return Route(pattern_str(entry['patv'], trail=entry.get('trail', trail)),
                  make_endpoint(entry['id'], entry['beh'], log), methods=methods, **kw)
 
